@@ -96,6 +96,11 @@ def relaxation_bound(r: flowcase.Run, tail=False):
     return d / phi_min * phi_max * math.exp(log_decay)
 
 
+def known_match(case, v):
+    """Known finding: rises of nodes >= 1 that follow a rise of node 0 (mechanism decided where the violation is raised)."""
+    return "node0-rises-when-step-grows" if v.oracle == "C01/monotone-in-time-literal" else None
+
+
 def check_case(case) -> Result:
     res = Result()
     try:
@@ -147,6 +152,28 @@ def check_case(case) -> Result:
             if not node0_rose:
                 covered += 1
         res.counts["steps_checked_monotone_in_time"] = covered
+        # ---- 3'. the literal sentence: no node beyond the fracture node rises at all ------------------------
+        # Not a theorem of the documented scheme (Appendix A.3): node 0 is reset to m_f before every step, so it
+        # rises when the step grows and pushes its neighbours up.  The unchanged tree therefore violates the
+        # sentence on grids whose steps jump while the profile is still moving (known finding
+        # node0-rises-when-step-grows).  A rise is attributed to that mechanism only if node 0 has risen by at least
+        # as much on this or an earlier step of the run; any other rise is a violation of its own.
+        if not any(v.oracle == "C01/monotone-in-time" for v in res.violations) and dtm.shape[1] > 1:
+            cum0 = np.maximum.accumulate(np.maximum(dtm[:, 0], 0.0))
+            rise = np.max(dtm[:, 1:], axis=1)
+            lit = np.where(rise > tol)[0]
+            if lit.size:
+                unexplained = lit[rise[lit] > cum0[lit] + tol]
+                if unexplained.size:
+                    n = int(unexplained[0])
+                    j = int(np.argmax(dtm[n, 1:])) + 1
+                    res.bad("C01/monotone-in-time", f"node {j} rises by {dtm[n, j]!r} on step {n}->{n + 1} (dt={t[n + 1] - t[n]!r}), more than node 0 has risen on any step so far ({cum0[n]!r}); d={d!r}, nx={nx}")
+                else:
+                    n = int(lit[int(np.argmax(rise[lit]))])
+                    j = int(np.argmax(dtm[n, 1:])) + 1
+                    prev = t[n] - t[n - 1] if n > 0 else float("nan")
+                    res.bad("C01/monotone-in-time-literal", f"node {j} rises by {dtm[n, j]!r} ({dtm[n, j] / d:.3g} of the drawdown) on step {n}->{n + 1} (dt={t[n + 1] - t[n]!r}, previous dt={prev!r}); node 0 had risen by up to {cum0[n]!r} by then (it is reset to the frac-face value before every step and rises when the step grows); nx={nx}, {lit.size} of {dtm.shape[0]} steps affected")
+                res.labels["literal_time_monotone"] = "violated"
         res.counts["steps_total_constant_drawdown"] = dtm.shape[0]
         # ---- 4. relaxes to the frac-face value whatever the step size ---------------------------------
         rb = relaxation_bound(r)
